@@ -8,7 +8,8 @@ DECIDED = ("R17.1 in every normal variant of every public install root and of th
            "before the routine returns, by the platform's instruction-cache primitive for that target with a range that covers "
            "[dst, dst+len) by value: Linux __clear_cache(dst, dst+len); Windows FlushInstructionCache(_, dst, len) whose failure diverges; "
            "macOS sys_icache_invalidate(p, n) with p the written address or the address the written alias maps (mach_vm_remap) and n >= len; "
-           "R17.2 no write to that range after its last flush; R17.3 the restoring write of the destructor is flushed likewise")
+           "R17.2 no write to that range after its last flush; R17.3 the restoring write of the destructor is flushed likewise"
+           " A returning install path without any recognised code write at the entry is a violation (the code may have been modified through a channel the rules do not follow, and no flush can be shown for it). R17.2 other raw writes must be followed by a flush covering their address - all `count` bytes for write_bytes(dst, val, count).")
 NOT_DECIDED = "whether a given CPU needs the flush (the property is about asking the platform); data-cache maintenance inside the primitives"
 
 FLUSH = {"linux": "injector_core::linuxapi::__clear_cache", "windows": "injector_core::winapi::FlushInstructionCache",
